@@ -200,47 +200,76 @@ Definition derive {E F} (f : list E -> list F) (m : miller E) : miller F :=
   mkMiller (f (m_data m)) (m_phase m) (m_fmt m).
 
 (* ========================================= exact instance: integer vectors
-   acted on by 3x3 integer matrices (all operations of the cubic, tetragonal
-   and orthorhombic point groups are of this form); no rounding, exact zero *)
-Definition zvec := list Z.
-Definition zmat := list (list Z).
-Definition zdot (r v : list Z) : Z := fold_left Z.add (map (fun p => (fst p * snd p)%Z) (combine r v)) 0%Z.
-Definition zact (m : zmat) (v : zvec) : zvec := map (fun r => zdot r v) m.
-Definition zcol (m : zmat) (j : nat) : list Z := map (fun r => nth j r 0%Z) m.
-Definition zmmul (a b : zmat) : zmat := map (fun r => map (fun j => zdot r (zcol b j)) (seq 0 3)) a.
-Definition zmtrans (a : zmat) : zmat := map (zcol a) (seq 0 3).
-Definition zmid : zmat := [[1; 0; 0]; [0; 1; 0]; [0; 0; 1]]%Z.
-Definition zcmp : zvec -> zvec -> comparison := lexcmp Z.compare.
-Definition zveqb (a b : zvec) : bool := keq zcmp a b.
-Definition zis0 (v : zvec) : bool := forallb (Z.eqb 0) v.
-Definition z0 : zvec := [0; 0; 0]%Z.
-Fixpoint zmeqb (a b : zmat) : bool :=
-  match a, b with
-  | [], [] => true
-  | r :: a', s :: b' => zveqb r s && zmeqb a' b'
-  | _, _ => false
-  end.
+   (triples) acted on by 3x3 integer matrices (all operations of the cubic,
+   tetragonal and orthorhombic point groups are of this form); no rounding,
+   exact zero test *)
+Definition zv3 : Type := (Z * Z * Z)%type.
+Definition zm3 : Type := (zv3 * zv3 * zv3)%type.          (* rows *)
+Local Open Scope Z_scope.
+Definition zdot3 (a b : zv3) : Z :=
+  let '(a1, a2, a3) := a in let '(b1, b2, b3) := b in a1 * b1 + a2 * b2 + a3 * b3.
+Definition zact (m : zm3) (v : zv3) : zv3 :=
+  let '(r1, r2, r3) := m in (zdot3 r1 v, zdot3 r2 v, zdot3 r3 v).
+Definition ztrans (m : zm3) : zm3 :=
+  let '((a11, a12, a13), (a21, a22, a23), (a31, a32, a33)) := m in
+  ((a11, a21, a31), (a12, a22, a32), (a13, a23, a33)).
+Definition zmmul (a b : zm3) : zm3 :=
+  let '(r1, r2, r3) := a in let '(c1, c2, c3) := ztrans b in
+  ((zdot3 r1 c1, zdot3 r1 c2, zdot3 r1 c3),
+   (zdot3 r2 c1, zdot3 r2 c2, zdot3 r2 c3),
+   (zdot3 r3 c1, zdot3 r3 c2, zdot3 r3 c3)).
+Definition zmid : zm3 := ((1, 0, 0), (0, 1, 0), (0, 0, 1)).
+Definition zkey (v : zv3) : list Z := let '(a, b, c) := v in [a; b; c].
+Definition zcmp : list Z -> list Z -> comparison := lexcmp Z.compare.
+Definition zveqb (a b : zv3) : bool := keq zcmp (zkey a) (zkey b).
+Definition zis0 (v : zv3) : bool := zveqb v (0, 0, 0).
+Definition z0 : zv3 := (0, 0, 0).
+Definition zmkey (m : zm3) : list Z := let '(r1, r2, r3) := m in zkey r1 ++ zkey r2 ++ zkey r3.
+Definition zmeqb (a b : zm3) : bool := keq zcmp (zmkey a) (zmkey b).
+Local Close Scope Z_scope.
 
-Definition zsym_all (ops : list zmat) (vs : list zvec) : list zvec := symmetrise_all [] zact ops vs.
-Definition zsym_unique (ops : list zmat) (vs : list zvec) : list zvec * list nat * list Z :=
-  symmetrise_unique zcmp (fun v => v) zis0 (fun v => v) [] z0 zis0 zact ops vs.
-Definition zmultiplicity (ops : list zmat) (shape : list nat) (data : list zvec) : list nat :=
-  multiplicity zcmp (fun v => v) zis0 (fun v => v) [] z0 zis0 zact ops shape data.
+Definition zsym_all (ops : list zm3) (vs : list zv3) : list zv3 := symmetrise_all z0 zact ops vs.
+Definition zsym_unique (ops : list zm3) (vs : list zv3) : list zv3 * list nat * list Z :=
+  symmetrise_unique zcmp (fun v => v) zis0 zkey z0 z0 zis0 zact ops vs.
+Definition zblock (ops : list zm3) (v : zv3) : list zv3 :=
+  block_of zcmp (fun v => v) zis0 zkey z0 zact ops v.
+Definition zmultiplicity (ops : list zm3) (shape : list nat) (data : list zv3) : list nat :=
+  multiplicity zcmp (fun v => v) zis0 zkey z0 z0 zis0 zact ops shape data.
+
+(* the angle between u and w, up to the factor |u|, as an exactly comparable
+   pair (u.w, w.w):  angle(u,w) <= angle(u,w')  iff  u.w/|w| >= u.w'/|w'| *)
+Definition zang (u w : zv3) : Z * Z := (zdot3 u w, zdot3 w w).
+Definition zang_leb (p q : Z * Z) : bool :=
+  let '(a, n) := p in let '(b, m) := q in
+  if (0 <=? a)%Z then (if (0 <=? b)%Z then (b * b * n <=? a * a * m)%Z else true)
+  else (if (0 <=? b)%Z then false else (a * a * m <=? b * b * n)%Z).
+Definition zangle_with_sym (ops : list zm3) (self other : list zv3) : option (list (Z * Z)) :=
+  angle_with_sym zang_leb zang self (fst (fst (zsym_unique ops other))).
 
 (* closure of a generator list under products (bounded iteration) *)
-Definition zadd_new (acc : list zmat) (x : zmat) : list zmat :=
+Definition zadd_new (acc : list zm3) (x : zm3) : list zm3 :=
   if existsb (zmeqb x) acc then acc else acc ++ [x].
-Fixpoint zclose (fuel : nat) (acc : list zmat) : list zmat :=
+Fixpoint zclose (fuel : nat) (acc : list zm3) : list zm3 :=
   match fuel with
   | O => acc
   | S f => zclose f (fold_left zadd_new (flat_map (fun a => map (zmmul a) acc) acc) acc)
   end.
-(* the 48 operations of m-3m from a 4-fold, a 3-fold and the inversion *)
-Definition z_c4z : zmat := [[0; -1; 0]; [1; 0; 0]; [0; 0; 1]]%Z.
-Definition z_c3 : zmat := [[0; 0; 1]; [1; 0; 0]; [0; 1; 0]]%Z.
-Definition z_inv : zmat := [[-1; 0; 0]; [0; -1; 0]; [0; 0; -1]]%Z.
-Definition z_m3m : list zmat := zclose 4 [zmid; z_c4z; z_c3; z_inv].
-Definition z_4 : list zmat := zclose 3 [zmid; z_c4z].
+(* the 48 operations of m-3m from a 4-fold, a 3-fold and the inversion; the
+   4 operations of the group 4 *)
+Definition z_c4z : zm3 := ((0, -1, 0), (1, 0, 0), (0, 0, 1))%Z.
+Definition z_c3 : zm3 := ((0, 0, 1), (1, 0, 0), (0, 1, 0))%Z.
+Definition z_inv : zm3 := ((-1, 0, 0), (0, -1, 0), (0, 0, -1))%Z.
+Definition z_m3m : list zm3 := zclose 4 [zmid; z_c4z; z_c3; z_inv].
+Definition z_4 : list zm3 := zclose 3 [zmid; z_c4z].
+
+(* de-duplication by rounded values on a fixed-point scalar: values in units
+   of 1e-11, rounding to the 10th decimal = to a multiple of 10, half to even *)
+Definition zround10 (x : Z) : Z :=
+  let q := (x / 10)%Z in let r := (x mod 10)%Z in
+  if (r <? 5)%Z then (10 * q)%Z else if (5 <? r)%Z then (10 * (q + 1))%Z
+  else if Z.even q then (10 * q)%Z else (10 * (q + 1))%Z.
+Definition zuniq_rounded (col : list Z) : list Z :=
+  uniq Z.compare zround10 (fun _ => false) (fun x => x) 0%Z col.
 
 (* ------------------------------------------------ binary64 (evaluation only) *)
 From Coq Require Import PrimFloat FloatOps.
